@@ -83,6 +83,14 @@ func (dropByName) Description() string { return "dropByName" }
 
 var deadlocksSeen atomic.Int32
 
+// goroutineHeader returns the first line of the calling goroutine's own stack dump ("goroutine N [running]:").
+func goroutineHeader() string {
+	buf := make([]byte, 64)
+	n := runtime.Stack(buf, false)
+	line, _, _ := strings.Cut(string(buf[:n]), "\n")
+	return line
+}
+
 func snapshotString(s sdktrace.ReadOnlySpan) string {
 	var sb strings.Builder
 	fmt.Fprintf(&sb, "name=%q end=%d status=%v/%q dropped=%d/%d/%d child=%d\n", s.Name(), s.EndTime().UnixNano(), s.Status().Code, s.Status().Description,
@@ -158,6 +166,7 @@ func runCase(k *vf.Case, traced bool) {
 	var wg sync.WaitGroup
 	release := make(chan struct{})
 	var panics []string
+	goids := map[int]string{} // worker -> "goroutine N [running]:" as the runtime prints it for that worker
 	for g := 0; g < G; g++ {
 		seed := r.U64()
 		wg.Add(1)
@@ -167,6 +176,9 @@ func runCase(k *vf.Case, traced bool) {
 			var local []opRec
 			var localChildren []trace.SpanID
 			attrBuf := make([]attribute.KeyValue, 3)
+			mu.Lock()
+			goids[g] = goroutineHeader()
+			mu.Unlock()
 			defer func() {
 				if rec := recover(); rec != nil {
 					buf := make([]byte, 4096)
@@ -187,7 +199,7 @@ func runCase(k *vf.Case, traced bool) {
 			}
 			var plans []plan
 			for i := 0; i < nops; i++ {
-				kind := vf.Pick(gr, []string{"End", "SetAttributes", "AddEvent", "AddLink", "SetStatus", "SetName", "RecordError", "IsRecording", "Child", "Tracer", "Churn"})
+				kind := vf.Pick(gr, []string{"End", "SetAttributes", "AddEvent", "AddLink", "SetStatus", "SetName", "RecordError", "IsRecording", "Child", "Tracer", "Churn", "ReadLive"})
 				if endHeavy && gr.Chance(1, 2) {
 					kind = "End"
 				}
@@ -230,7 +242,23 @@ func runCase(k *vf.Case, traced bool) {
 				case "SetName":
 					s.span.SetName(tag)
 				case "RecordError":
-					s.span.RecordError(errors.New(tag))
+					if gr.Bool() {
+						// with a stack trace: other goroutines do the same on other spans at the same time
+						s.span.RecordError(errors.New(tag), trace.WithStackTrace(true))
+					} else {
+						s.span.RecordError(errors.New(tag))
+					}
+				case "ReadLive":
+					// the read side of the live span, as a processor or an exporter helper would use it
+					if ro, ok := s.span.(sdktrace.ReadOnlySpan); ok {
+						et := ro.EndTime()
+						if !et.IsZero() && (et.Year() < 2000 || et.Year() > 2100) {
+							op.kind = "ReadLive-implausible-end-time:" + et.String()
+						}
+						_, _, _, _ = ro.StartTime(), ro.Parent(), ro.SpanKind(), ro.Name()
+						_, _, _, _ = ro.Attributes(), ro.Events(), ro.Links(), ro.Status()
+						_, _, _, _ = ro.DroppedAttributes(), ro.DroppedEvents(), ro.DroppedLinks(), ro.ChildSpanCount()
+					}
 				case "IsRecording":
 					rec := s.span.IsRecording()
 					if ended[pl.si] && rec {
@@ -336,6 +364,9 @@ func runCase(k *vf.Case, traced bool) {
 		if strings.HasPrefix(op.kind, "Churn-late") {
 			fail("unregistered-processor-got-span", "", "a span started after UnregisterSpanProcessor had returned was delivered to the unregistered processor")
 		}
+		if strings.HasPrefix(op.kind, "ReadLive-implausible-end-time") {
+			fail("two-end-times", "live read", "EndTime() of the live span returned "+strings.TrimPrefix(op.kind, "ReadLive-implausible-end-time:"))
+		}
 		if op.kind == "IsRecording-true-after-own-End" {
 			fail("recording-after-end", "", "IsRecording() returned true after this goroutine's End had returned")
 		}
@@ -419,6 +450,25 @@ func runCase(k *vf.Case, traced bool) {
 			}
 		}
 		for _, e := range snap.Events() {
+			if e.Name == "exception" {
+				// a recorded stack trace is the recording goroutine's own, whole
+				var msg, st string
+				for _, kv := range e.Attributes {
+					switch kv.Key {
+					case "exception.message":
+						msg = kv.Value.AsString()
+					case "exception.stacktrace":
+						st = kv.Value.AsString()
+					}
+				}
+				var wg2, wi int
+				if n, _ := fmt.Sscanf(msg, "g%d-%d", &wg2, &wi); n == 2 && st != "" {
+					k.C.Count("stack_traces_checked", 1)
+					if !strings.HasPrefix(st, goids[wg2]+"\n") || !strings.Contains(st, "RecordError") {
+						fail("torn-mutation", "stack trace of another goroutine", fmt.Sprintf("error %s was recorded by %q, its event carries:\n%s", msg, goids[wg2], st))
+					}
+				}
+			}
 			if e.Name == "post-end" {
 				fail("post-end-mutation-visible", "event", "")
 			}
@@ -518,6 +568,7 @@ func main() {
 			c.Cases("traced", n, 1, func(k *vf.Case) { runCase(k, true) })
 			rtrace.Stop()
 		}
+		c.Floor("stack_traces_checked", 1000)
 		c.Floor("untraced_cases_with_overlapping_ends", 1000)
 		c.Floor("traced_cases_with_overlapping_ends", 1000)
 		c.Floor("untraced_cases_with_children_before_end", 100)
